@@ -35,6 +35,8 @@ def main(argv):
 
     try:
         boot.boot()
+        from . import linecov
+        cov_on = linecov.start(boot.REPO)
         mod = importlib.import_module("vrt.props.%s" % prop.lower())
         if hasattr(mod, "setup_worker"):
             mod.setup_worker(shard.get("tier", "quick"))
@@ -73,6 +75,8 @@ def main(argv):
             rec["error"] = err
         emit(rec)
     try:
+        if cov_on:
+            emit({"linecov": linecov.snapshot()})
         n = boot.check_origin()
         emit({"origin_ok": n, "repo": boot.REPO, "ext": boot.ext_build_dir()})
     except boot.OriginError as e:
